@@ -355,6 +355,10 @@ class Store:
         """Find an integer valuation satisfying all constraints plus `extra`
         (each Lin >= 0).  Returns dict or None."""
         cons = [self.canon(k) for k in self.cons] + [self.canon(k) for k in extra]
+        opaque = self.__dict__.get('opaque', ())
+        if opaque and any(x in opaque for k in cons for x in k.syms()):
+            # feasibility or the violation rests on the value of an unmodelled operation: no witness is claimed
+            return None
         syms = []
         for k in cons:
             for s in k.syms():
@@ -428,6 +432,34 @@ class Store:
                     out.append(v)
             return out
 
+        links = self.__dict__.get('width_of', {})
+        for ws, (vlin, base, minw) in links.items():
+            # the value behind a numeral width must get a valuation too
+            if any(ws in self.canon(Lin.sym(x)).syms() or x == ws for x in syms):
+                for x in self.canon(vlin).syms():
+                    if x not in syms:
+                        syms.append(x)
+                        iv[x] = list(self.iv.get(x, [None, None]))
+
+        def widths_ok(val):
+            """a numeral's width symbol must be the width of the value it renders (max(minw, digits), sign included)"""
+            for ws, (vlin, base, minw) in links.items():
+                if ws not in val:
+                    continue
+                try:
+                    v = self.canon(vlin).eval(val)
+                except KeyError:
+                    continue
+                n, d = abs(v), 1
+                while n >= base:
+                    n //= base
+                    d += 1
+                if v < 0:
+                    d += 1
+                if val[ws] != max(minw, d):
+                    return False
+            return True
+
         def search(iv, order):
             budget[0] -= 1
             if budget[0] < 0:
@@ -437,7 +469,7 @@ class Store:
             pending = [s for s in order if iv[s][0] is None or iv[s][1] is None or iv[s][0] != iv[s][1]]
             if not pending:
                 val = {s: iv[s][0] for s in order}
-                if all(k.eval(val) >= 0 for k in cons):
+                if all(k.eval(val) >= 0 for k in cons) and widths_ok(val):
                     return val
                 return None
             # choose the most constrained symbol
@@ -470,6 +502,8 @@ class Store:
         st.sub = dict(self.sub)
         st.info = dict(self.info)
         st.__dict__['decl'] = dict(self.__dict__.get('decl', {}))
+        st.__dict__['width_of'] = dict(self.__dict__.get('width_of', {}))
+        st.__dict__['opaque'] = set(self.__dict__.get('opaque', ()))
         return st
 
 
